@@ -1832,13 +1832,21 @@ impl Sessions {
         peer_nodeid: Option<u64>,
         dev_det: &BasicInfoConfig<'_>,
     ) -> Result<&mut Session, Error> {
-        let session_id = self.next_sess_unique_id;
+        let session_id = loop {
+            let session_id = self.next_sess_unique_id;
 
-        self.next_sess_unique_id += 1;
-        if self.next_sess_unique_id > 0x0fff_ffff {
-            // Reserve the upper 4 bits for the exchange index
-            self.next_sess_unique_id = 0;
-        }
+            self.next_sess_unique_id += 1;
+            if self.next_sess_unique_id > 0x0fff_ffff {
+                // Reserve the upper 4 bits for the exchange index
+                self.next_sess_unique_id = 0;
+            }
+
+            // After the allocator had wrapped, the id might still be in use by
+            // a long-lived session; ids are what exchanges find their session by
+            if self.sessions.iter().all(|sess| sess.id != session_id) {
+                break session_id;
+            }
+        };
 
         // Seed the peer's MRP intervals from our own configured defaults;
         // they'll be overwritten by Sigma1 / PBKDFParamRequest (or the
